@@ -10,11 +10,155 @@ open TzVerif.Model
 /-- strictly increasing list of integers -/
 def SortedLt (l : List Int) : Prop := ∀ i j, i < j → j < l.length → l.getD i 0 < l.getD j 0
 
+def BSPost (l : List Int) (x : Int) (r : BS) : Prop :=
+  match r with
+  | .found i => i < l.length ∧ l.getD i 0 = x
+  | .notFound i => i ≤ l.length ∧ (∀ j, j < i → l.getD j 0 < x) ∧ (∀ j, i ≤ j → j < l.length → x < l.getD j 0)
+
+theorem binarySearchLoop_spec (l : List Int) (x : Int) (hs : SortedLt l) (left right : Nat)
+    (h1 : left ≤ right) (h2 : right ≤ l.length)
+    (hlo : ∀ j, j < left → l.getD j 0 < x)
+    (hhi : ∀ j, right ≤ j → j < l.length → x < l.getD j 0) :
+    BSPost l x (binarySearchLoop l x left right) := by
+  fun_induction binarySearchLoop l x left right with
+  | case1 left right hlt mid v hv ih =>
+    apply ih (by omega) h2
+    · intro j hj
+      by_cases hjm : j = mid
+      · subst hjm; exact hv
+      · have := hs j mid (by omega) (by omega)
+        show l.getD j 0 < x
+        have hv' : l.getD mid 0 < x := hv
+        omega
+    · exact hhi
+  | case2 left right hlt mid v hv hv2 ih =>
+    apply ih (by omega) (by omega) hlo
+    intro j hj hjl
+    have hv' : l.getD mid 0 > x := hv2
+    by_cases hjm : j = mid
+    · subst hjm; exact hv'
+    · have := hs mid j (by omega) hjl
+      omega
+  | case3 left right hlt mid v hv hv2 =>
+    have hv' : ¬ l.getD mid 0 < x := hv
+    have hv2' : ¬ l.getD mid 0 > x := hv2
+    exact ⟨by omega, by omega⟩
+  | case4 left right hlt =>
+    have : left = right := by omega
+    subst this
+    exact ⟨h2, hlo, hhi⟩
+
 theorem binarySearch_spec (l : List Int) (x : Int) (hs : SortedLt l) :
     match binarySearch l x with
     | .found i => i < l.length ∧ l.getD i 0 = x
     | .notFound i => i ≤ l.length ∧ (∀ j, j < i → l.getD j 0 < x) ∧ (∀ j, i ≤ j → j < l.length → x < l.getD j 0) := by
-  sorry
+  have := binarySearchLoop_spec l x hs 0 l.length (Nat.zero_le _) (Nat.le_refl _)
+    (fun j hj => absurd hj (Nat.not_lt_zero _)) (fun j h1 h2 => by omega)
+  exact this
+
+
+theorem upper_spec (l : List Int) (x : Int) (hs : SortedLt l) :
+    (binarySearch l x).upper ≤ l.length ∧
+    (∀ j, j < (binarySearch l x).upper → l.getD j 0 ≤ x) ∧
+    (∀ j, (binarySearch l x).upper ≤ j → j < l.length → x < l.getD j 0) := by
+  have h := binarySearch_spec l x hs
+  cases hb : binarySearch l x with
+  | found i =>
+    rw [hb] at h
+    obtain ⟨h1, h2⟩ := h
+    refine ⟨h1, ?_, ?_⟩
+    · intro j hj
+      have hj' : j < i + 1 := hj
+      by_cases hji : j = i
+      · subst hji; omega
+      · have := hs j i (by omega) h1
+        omega
+    · intro j hj hjl
+      have hj' : i + 1 ≤ j := hj
+      have := hs i j (by omega) hjl
+      omega
+  | notFound i =>
+    rw [hb] at h
+    obtain ⟨h1, h2, h3⟩ := h
+    refine ⟨h1, ?_, h3⟩
+    intro j hj
+    exact Int.le_of_lt (h2 j hj)
+
+theorem strictlyIncreasing_pairwise (ts : List Transition) (h : Spec.StrictlyIncreasing ts) :
+    ts.Pairwise (fun a b => a.unixLeapTime < b.unixLeapTime) := by
+  induction ts with
+  | nil => exact List.Pairwise.nil
+  | cons a rest ih =>
+    cases rest with
+    | nil => simp
+    | cons b rest =>
+      obtain ⟨hab, hr⟩ := h
+      have ihr := ih hr
+      refine List.Pairwise.cons ?_ ihr
+      intro c hc
+      rcases List.mem_cons.mp hc with rfl | hc
+      · exact hab
+      · have := (List.pairwise_cons.mp ihr).1 c hc
+        omega
+
+theorem getD_map_time (ts : List Transition) (j : Nat) (hj : j < ts.length) :
+    (ts.map (·.unixLeapTime)).getD j 0 = ts[j].unixLeapTime := by
+  simp [List.getD_eq_getElem?_getD, hj]
+
+theorem sortedLt_of_strictlyIncreasing (ts : List Transition) (h : Spec.StrictlyIncreasing ts) :
+    SortedLt (ts.map (·.unixLeapTime)) := by
+  intro i j hij hj
+  rw [List.length_map] at hj
+  rw [getD_map_time ts i (by omega), getD_map_time ts j hj]
+  exact List.pairwise_iff_getElem.mp (strictlyIncreasing_pairwise ts h) i j (by omega) hj hij
+
+theorem filter_eq_take {α : Type} (ts : List α) (p : α → Bool) (c : Nat) (hc : c ≤ ts.length)
+    (h1 : ∀ j (hj : j < ts.length), j < c → p ts[j] = true)
+    (h2 : ∀ j (hj : j < ts.length), c ≤ j → p ts[j] = false) :
+    ts.filter p = ts.take c := by
+  conv => lhs; rw [← List.take_append_drop c ts]
+  rw [List.filter_append]
+  have e1 : (ts.take c).filter p = ts.take c := by
+    rw [List.filter_eq_self]
+    intro a ha
+    obtain ⟨j, hj, rfl⟩ := List.mem_iff_getElem.mp ha
+    rw [List.length_take] at hj
+    rw [List.getElem_take]
+    exact h1 j (by omega) (by omega)
+  have e2 : (ts.drop c).filter p = [] := by
+    rw [List.filter_eq_nil_iff]
+    intro a ha
+    obtain ⟨j, hj, rfl⟩ := List.mem_iff_getElem.mp ha
+    rw [List.length_drop] at hj
+    rw [List.getElem_drop]
+    simp [h2 (c + j) (by omega) (by omega)]
+  rw [e1, e2, List.append_nil]
+
+theorem lastAtOrBefore_eq (ts : List Transition) (h : Spec.StrictlyIncreasing ts) (L : Int) :
+    Spec.lastAtOrBefore ts L =
+      if (binarySearch (ts.map (·.unixLeapTime)) L).upper = 0 then none
+      else ts[(binarySearch (ts.map (·.unixLeapTime)) L).upper - 1]? := by
+  obtain ⟨hc, hlo, hhi⟩ := upper_spec (ts.map (·.unixLeapTime)) L (sortedLt_of_strictlyIncreasing ts h)
+  generalize (binarySearch (ts.map (·.unixLeapTime)) L).upper = c at hc hlo hhi
+  rw [List.length_map] at hc hhi
+  unfold Spec.lastAtOrBefore
+  rw [filter_eq_take ts _ c hc]
+  · rw [List.getLast?_eq_getElem?, List.length_take]
+    split
+    · next h0 => subst h0; simp
+    · next h0 =>
+      rw [List.getElem?_take_of_lt (by omega)]
+      congr 1
+      omega
+  · intro j hj hjc
+    have := hlo j hjc
+    rw [getD_map_time ts j hj] at this
+    simpa using this
+  · intro j hj hjc
+    have := hhi j hjc hj
+    rw [getD_map_time ts j hj] at this
+    simp only [decide_eq_false_iff_not]
+    omega
 
 theorem table_lookup (z : TimeZone) (hs : Spec.StrictlyIncreasing z.transitions) (u L : Int) (last : Transition)
     (hl : z.transitions.getLast? = some last) (hL : unixTimeToUnixLeapTime z.leapSeconds u = .ok L) :
@@ -24,25 +168,82 @@ theorem table_lookup (z : TimeZone) (hs : Spec.StrictlyIncreasing z.transitions)
          | some r => r.findLocalTimeType u
          | none => .error .noAvailableLocalTimeType)
        else .ok (z.localTimeTypes.getD (Spec.typeIndexAt z.transitions L) default)) := by
-  sorry
+  unfold TimeZone.findLocalTimeType
+  rw [hl]
+  simp only [hL]
+  split
+  · rfl
+  · congr 2
+    unfold Spec.typeIndexAt
+    rw [lastAtOrBefore_eq z.transitions hs L]
+    obtain ⟨hc, -, -⟩ := upper_spec (z.transitions.map (·.unixLeapTime)) L (sortedLt_of_strictlyIncreasing _ hs)
+    generalize (binarySearch (z.transitions.map (·.unixLeapTime)) L).upper = c at hc
+    rw [List.length_map] at hc
+    by_cases h0 : c = 0
+    · subst h0; simp
+    · have hlt : c - 1 < z.transitions.length := by omega
+      rw [if_pos (by omega), if_neg h0, List.getElem?_eq_getElem hlt]
+      simp [List.getD_eq_getElem?_getD, hlt]
 
 theorem no_transitions (z : TimeZone) (u : Int) (h : z.transitions = []) :
     z.findLocalTimeType u =
       (match z.extraRule with
        | some r => r.findLocalTimeType u
        | none => .ok (z.localTimeTypes.getD 0 default)) := by
-  sorry
+  unfold TimeZone.findLocalTimeType
+  rw [h]
+  rfl
 
 theorem conversion_error (z : TimeZone) (u : Int) (e : TzError) (last : Transition)
     (hl : z.transitions.getLast? = some last) (hL : unixTimeToUnixLeapTime z.leapSeconds u = .error e) :
     z.findLocalTimeType u = .error e := by
-  sorry
+  unfold TimeZone.findLocalTimeType
+  rw [hl]
+  simp only [hL]
+
+
+theorem utc_fromTimespec_nanoseconds (t ns : Int) (c : UtcDateTime)
+    (h : UtcDateTime.fromTimespec t ns = .ok c) : c.nanoseconds = ns := by
+  unfold UtcDateTime.fromTimespec at h
+  simp only at h
+  split at h
+  · cases h
+  · split at h
+    · cases h
+    · injection h with h
+      subst h
+      rfl
+
+theorem fromTimespecAndLocal_spec (u ns : Int) (ltt : LocalTimeType) (d : DateTime)
+    (h : DateTime.fromTimespecAndLocal u ns ltt = .ok d) :
+    d.unixTime = u ∧ d.nanoseconds = ns ∧ d.localTimeType = ltt ∧
+    UtcDateTime.fromTimespec (u + ltt.utOffset) ns =
+      .ok { year := d.year, month := d.month, monthDay := d.monthDay, hour := d.hour, minute := d.minute,
+            second := d.second, nanoseconds := d.nanoseconds } := by
+  unfold DateTime.fromTimespecAndLocal at h
+  simp only at h
+  split at h
+  · cases h
+  · cases hc : UtcDateTime.fromTimespec (u + ltt.utOffset) ns with
+    | error e => rw [hc] at h; cases h
+    | ok c =>
+      rw [hc] at h
+      injection h with h
+      subst h
+      exact ⟨rfl, utc_fromTimespec_nanoseconds _ _ _ hc, rfl, rfl⟩
 
 theorem fromTimespec_zone (u ns : Int) (z : TimeZone) (d : DateTime) (h : DateTime.fromTimespec u ns z = .ok d) :
     d.unixTime = u ∧ d.nanoseconds = ns ∧ z.findLocalTimeType u = .ok d.localTimeType ∧
     UtcDateTime.fromTimespec (u + d.localTimeType.utOffset) ns =
       .ok { year := d.year, month := d.month, monthDay := d.monthDay, hour := d.hour, minute := d.minute,
             second := d.second, nanoseconds := d.nanoseconds } := by
-  sorry
+  unfold DateTime.fromTimespec at h
+  cases hf : z.findLocalTimeType u with
+  | error e => rw [hf] at h; cases h
+  | ok ltt =>
+    rw [hf] at h
+    obtain ⟨h1, h2, h3, h4⟩ := fromTimespecAndLocal_spec u ns ltt d h
+    rw [h3]
+    exact ⟨h1, h2, rfl, h4⟩
 
 end TzVerif.Proofs
